@@ -440,7 +440,10 @@ namespace pika {
           : callback_(std::forward<CB>(cb))
           , state_(st.state_)
         {
-            if (state_) state_->add_callback(this);
+            // Only keep the state if the callback has been registered. If it was not (stop is not
+            // possible anymore, or stop was already requested and the callback has been invoked
+            // right here) there is nothing to deregister or wait for in the destructor.
+            if (state_ && !state_->add_callback(this)) state_.reset();
         }
 
         template <typename CB,
@@ -451,7 +454,10 @@ namespace pika {
           : callback_(std::forward<CB>(cb))
           , state_(std::move(st.state_))
         {
-            if (state_) state_->add_callback(this);
+            // Only keep the state if the callback has been registered. If it was not (stop is not
+            // possible anymore, or stop was already requested and the callback has been invoked
+            // right here) there is nothing to deregister or wait for in the destructor.
+            if (state_ && !state_->add_callback(this)) state_.reset();
         }
 
         // Effects: Unregisters the callback from the owned stop state, if any.
